@@ -1942,6 +1942,19 @@ func (interp *Interpreter) cfg(root *node, sc *scope, importPath, pkgName string
 					// nil: Set node value to zero of return type
 					c.rval = reflect.New(typ.TypeOf()).Elem()
 				}
+				if !c.rval.IsValid() || !isConstantValue(c.rval.Type()) {
+					continue
+				}
+				// A constant must be representable in the result type, and is converted to it exactly.
+				if c.typ.untyped {
+					err = check.assignment(c, typ, "return argument")
+				} else if err = check.representable(c, typ.TypeOf()); err == nil {
+					// A binary expression has already the type of the result (see nodeType).
+					c.rval, err = check.convertConst(c.rval, typ.TypeOf())
+				}
+				if err != nil {
+					return
+				}
 			}
 
 		case selectorExpr:
